@@ -13,14 +13,18 @@ where `w=<code>` is the code the call returned (it tells which error errgroup
 reported when several Puts of one flush failed; the model only accepts it if
 that error occurred in the flush), `<fm>` is `-` (no FindMissing was observed during the call) or
 `fm:<code>:<digests>` (code 0 = OK, digests = the argument of FindMissing),
-`<p>` is `p:<digest>:<code>` (an underlying Put that was issued, in order),
+`<p>` is `p:<digest>:<code>` (an underlying Put that was issued, in order) or,
+last, `a:<code>:<c|g>` (the wait for an upload slot failed with that code
+because the caller's context (`c`) or only the group's context (`g`) was
+cancelled, so the remaining missing blobs were not issued),
 lists are comma separated or `-`, and `<call>` is `none`, `ac:<code>` or
 `hist:<code>` (the storage call the caching layer made).  The observed
 underlying calls are the oracle; the driver also checks that they are
 *admissible* for the model (`adm=ok`): a flush happens exactly when the model
 flushes, FindMissing is asked about exactly the pending digests, only missing
-pending blobs are Put, each once, and a missing blob may be left out only after
-an earlier failure of the same flush.
+pending blobs are Put, each once, a missing blob is left out only when the
+acquisition of an upload slot failed, and a group-only cancellation needs an
+earlier failed Put of the same flush.
 -/
 namespace BbRe.Drivers.Pipeline
 open BbRe.Pipeline BbRe.Drivers
@@ -60,7 +64,7 @@ def showOptD : Option Nat → String
 structure ObsFlush where
   winner : Option Code
   fm : Option (Option Code × List Digest)
-  puts : List (Digest × Option Code)
+  evs : List (IssueEv × Bool)   -- Bool: acquire failure caused by the caller's context
 
 def parseFm (s : String) : Option (Option (Option Code × List Digest)) :=
   if s == "-" then some none
@@ -71,12 +75,18 @@ def parseFm (s : String) : Option (Option (Option Code × List Digest)) :=
       some (some (codeOf c, ds))
     | _ => none
 
-def parseP (s : String) : Option (Digest × Option Code) :=
+def parseP (s : String) : Option (IssueEv × Bool) :=
   match s.splitOn ":" with
   | ["p", d, c] => do
     let d ← d.toNat?
     let c ← c.toNat?
-    some (d, codeOf c)
+    some (.put d (codeOf c), false)
+  | ["a", c, why] => do
+    let c ← c.toNat?
+    if c == 0 then none
+    else if why == "c" then some (.acquireFailed c, true)
+    else if why == "g" then some (.acquireFailed c, false)
+    else none
   | _ => none
 
 def parseW (s : String) : Option (Option Code) :=
@@ -92,10 +102,23 @@ def parseObs : List String → Option ObsFlush
     some ⟨w, fm, ps⟩
   | _ => none
 
+def ObsFlush.puts (o : ObsFlush) : List IssueEv := o.evs.map (·.1)
+
 def ObsFlush.oracle (o : ObsFlush) : FlushOracle :=
   match o.fm with
   | none => ⟨none, o.puts, o.winner⟩
   | some (c, _) => ⟨c, o.puts, o.winner⟩
+
+def issuedOf : List (IssueEv × Bool) → List (Digest × Option Code)
+  | [] => []
+  | (.put d r, _) :: rest => (d, r) :: issuedOf rest
+  | (.acquireFailed _, _) :: rest => issuedOf rest
+
+/-- `none`: no acquire failure; `some (byCaller, last)`. -/
+def acquireOf : List (IssueEv × Bool) → Option (Bool × Bool)
+  | [] => none
+  | (.acquireFailed _, w) :: rest => some (w, rest.isEmpty)
+  | _ :: rest => acquireOf rest
 
 /-- Admissibility of the observed underlying calls of one `flushLocked` in state `s`. -/
 def admFlush (s : Store) (o : ObsFlush) : String :=
@@ -103,19 +126,25 @@ def admFlush (s : Store) (o : ObsFlush) : String :=
   | none => "flush-missing"
   | some (c, args) =>
     if sortNat args != sortNat (s.pending.map (·.1)) then "fm-args"
-    else if c.isSome then (if o.puts.isEmpty then "ok" else "put-after-fm-error")
+    else if c.isSome then (if o.evs.isEmpty then "ok" else "put-after-fm-error")
     else
       let missing := (s.pending.map (·.1)).filter (fun d => !s.cas.contains d)
-      let issued := o.puts.map (·.1)
+      let puts := issuedOf o.evs
+      let issued := puts.map (·.1)
+      let anyFailed := puts.any (fun e => e.2.isSome)
+      let skipped := missing.any (fun d => !issued.contains d)
       if issued.any (fun d => !missing.contains d) then "put-unexpected"
       else if !issued.Nodup then "put-twice"
-      else
-        -- a missing blob may be skipped only after an earlier failure
-        let allOk := o.puts.all (fun e => e.2.isNone)
-        if allOk && missing.any (fun d => !issued.contains d) then "put-skipped" else "ok"
+      else match acquireOf o.evs with
+        | none => if skipped then "put-skipped" else "ok"
+        | some (byCaller, last) =>
+          if !last then "event-after-acquire-failure"
+          else if !skipped then "acquire-failed-but-all-issued"
+          else if !byCaller && !anyFailed then "acquire-failed-without-cause"
+          else "ok"
 
 def admNoFlush (o : ObsFlush) : String :=
-  if o.fm.isSome || !o.puts.isEmpty then "flush-unexpected" else "ok"
+  if o.fm.isSome || !o.evs.isEmpty then "flush-unexpected" else "ok"
 
 def showStore (s : Store) : String :=
   s!"cas={csv (sortNat s.cas)} consumed={csv (sortNat s.consumed)}"
